@@ -297,6 +297,32 @@ def run(facts, tier):
                 g9.violate("order/natives", "a native call can be chosen without (or before) consulting the definitions of the included/imported modules: a module's definition no longer shadows a natively implemented filter of the same name and arity", where=cj[0]["sp"])
     rules.append(g9.finish())
 
+    # ---------------- G16.10 a comma list of the module header is flattened on both sides
+    from hirutil import find as hfind, strip as hstrip
+    g10 = Rule("G16.10", "the loader's flattening of `a, b, c` (a self-recursive function over terms with an arm for `BinaryOp::Comma`) hands *both* operands of the comma to the recursive call: "
+               "the parser nests commas to either side, so a head-first walk would treat `(a, b), c` as two entries (used for the `search` list of import metadata: some search paths would be skipped)", floor=1)
+    for f_ in facts.hir("jaq_core"):
+        if not f_["def"].startswith("jaq_core::load::") or f_["def"].startswith("jaq_core::load::parse::") or f_["def"].startswith("jaq_core::load::lex::") or f_.get("test"):
+            continue
+        for mm in hfind(f_["body"], lambda n: n.get("k") == "Match"):
+            for a_ in mm["arms"]:
+                if not hfind(a_["pat"], lambda n: n.get("k") == "Path" and str((n.get("path") or {}).get("def", "")).endswith("BinaryOp::Comma")):
+                    continue
+                binds = {b_["id"]: b_["name"] for b_ in hfind(a_["pat"], lambda n: n.get("k") == "Bind")}
+                rec = [c_ for c_ in hfind(a_["body"], lambda n: n.get("k") in ("MethodCall", "Call") and ((n.get("m") or {}).get("def") == f_["def"] or (hstrip(n.get("f") or {}).get("path") or {}).get("def") == f_["def"]))]
+                if not rec or len(binds) < 2:
+                    continue
+                passed = set()
+                for c_ in rec:
+                    for x_ in ([c_.get("recv")] if c_.get("recv") else []) + list(c_.get("args", [])):
+                        for p_ in hfind(x_, lambda n: n.get("k") == "Path" and "local" in (n.get("path") or {})):
+                            passed.add(p_["path"].get("id"))
+                missing = [nm for i_, nm in binds.items() if i_ not in passed]
+                g10.examined(("comma-flatten", f_["def"]), True, {"fn": f_["def"], "operands_bound": sorted(binds.values()), "handed_to_the_recursive_call": sorted(nm for i_, nm in binds.items() if i_ in passed)})
+                if missing:
+                    g10.violate(f"one-sided/{f_['def']}", f"`{f_['def']}` flattens a comma list but does not recurse into operand(s) {missing}: a left-nested `(a, b), c` keeps `a, b` as one entry", where=a_["body"].get("sp"))
+    rules.append(g10.finish())
+
     explanation = ("Dominance / control-dependence / value-flow rules on the MIR of the module loader (Loader::find), the file look-up (Import::find and its closures) and Compiler::open_module. "
                    "Decided: cycle guard, load-once guard, refusal of absolute paths, search order, extension rule, expand-then-join, one look-up for modules and data, per-module visibility reset. "
                    "Not decided: name resolution and variable indices across modules (value-level, C01-like).")
